@@ -373,7 +373,7 @@ Proof. vm_compute. split; reflexivity. Qed.
    _partial: proved for a prefixed name whose local part does not END in a dot and that is followed by something that
    cannot continue a name (white space, punctuation, end of input).  NOT covered by the theorem (suite "tpname" only):
    a local part directly followed by the statement's '.' (ex:a.) and a local part ending in a dot at all - among these
-   lies finding C05r: the legal  ex:a\.  (local part "a.") loses its escaped dot to qname's trailing-dot rule.
+   lay finding C05r, repaired by 981b2a74 (see C05_turtle_pname_escaped_dot_partial below).
    Numbers (INTEGER / DECIMAL / DOUBLE), the LANGTAG after a string and BLANK_NODE_LABEL at Turtle level are not modelled. *)
 Theorem C05_turtle_pname_forms_partial : forall l run r0 its rest,
   span (fun c => t_pn_chars c || (c =? 46)) l = (run, r0) ->
@@ -393,12 +393,24 @@ Theorem C05_turtle_local_scan : forall n l f its rest, (length l <= n)%nat ->
 Proof. exact local_scan. Qed.
 Print Assumptions C05_turtle_local_scan.
 
-(* finding C05r: a legal prefixed name that qname misreads *)
-Example C05r_escaped_trailing_dot_refuted :
+(* since 981b2a74 also a local part that ENDS in the escape backslash-dot (ex:a\. , local part a-dot) is read as the grammar
+   denotes: qname sees that the dot was escaped and keeps it *)
+Theorem C05_turtle_pname_escaped_dot_partial : forall l run r0 its rest,
+  span (fun c => t_pn_chars c || (c =? 46)) l = (run, r0) ->
+  match run with [] => True | c :: _ => pn_chars_base c = true /\ (last run 0 =? 46) = false end ->
+  starts_with 58 r0 = true -> starts_with 46 (tl r0) = false ->
+  t_items true (tl r0) = (its, rest) -> rest_ok rest ->
+  its <> [] -> last its (0, false) = (46, false) ->
+  t_pname l = Some ((run, map fst its), rest) /\ n3_qname l = Some ((run, map fst its), rest).
+Proof. exact pname_read_escaped_dot. Qed.
+Print Assumptions C05_turtle_pname_escaped_dot_partial.
+
+(* historical witness of finding C05r (repaired by 981b2a74): the legal  ex:a\. .  used to lose its escaped dot to qname's
+   trailing-dot rule (n3_qname gave (ex, a) and ". ." back); the repaired rule reads it as the grammar does *)
+Example C05r_escaped_trailing_dot_fixed :
   let l := [101;120;58;97;92;46;32;46] in                         (* ex:a\. . *)
-  t_pname l = Some (([101;120], [97;46]), [32;46]) /\ n3_qname l = Some (([101;120], [97]), [46;32;46])
-  /\ p_kf {| p_bind := []; p_text := l |} = 18.
-Proof. vm_compute. repeat split; reflexivity. Qed.
+  t_pname l = Some (([101;120], [97;46]), [32;46]) /\ n3_qname l = t_pname l.
+Proof. vm_compute. split; reflexivity. Qed.
 
 (* non-vacuity: a two-row N-Quads document with every kind of term, escapes in the
    literal, a blank-node-named graph and the default graph is in scope and read back *)
